@@ -768,6 +768,15 @@ def check(repo):
                    "but the key / index / flags it produced are not what is on disk" % (wfi.name, why))
     if not bad_w:
         r6.ok({"file_manager": F.CLI_FM, "writers": n_w})
+    # a service directory comes into being through create-service only: a writer that makes the directory itself turns a refused
+    # operation on an unknown sid (whose close still stores the state) into a phantom service that later blocks the real creation
+    mk = F.directory_creators(repo, F.CLI_FM)
+    for wfi, call in mk:
+        r4.fail_fn(wfi, call, "%s creates directories" % wfi.name,
+                   "%s creates the service directory itself (%s): operations that are refused for an unknown service id then still leave files behind, and "
+                   "a directory that exists makes the later creation of that service fail" % (wfi.name, short(call)))
+    if not mk:
+        r4.ok({"file_manager": F.CLI_FM, "rule": "only create_sid_folder creates directories"})
 
     r2 = Rule("R11.2", "no dropped check: predicate results are used; validity check guards creation")
     rules.append(r2)
